@@ -2,7 +2,11 @@
 
 package cl
 
-import "github.com/ohler55/slip"
+import (
+	"reflect"
+
+	"github.com/ohler55/slip"
+)
 
 func init() {
 	slip.Define(
@@ -48,6 +52,7 @@ func (f *Gethash) Call(s *slip.Scope, args slip.List, depth int) (result slip.Ob
 	if !ok {
 		slip.TypePanic(s, depth, "hash-table", args[1], "hash-table")
 	}
+	checkHashKey(s, depth, args[0])
 	v, has := ht[args[0]]
 	var ho slip.Object
 	if has {
@@ -63,5 +68,15 @@ func (f *Gethash) Place(s *slip.Scope, args slip.List, value slip.Object) {
 	if !ok {
 		slip.TypePanic(s, 0, "hash-table", args[1], "hash-table")
 	}
+	checkHashKey(s, 0, args[0])
 	ht[args[0]] = value
+}
+
+// checkHashKey raises a type-error if the key can not be the key of a
+// hash-table. Keys are compared with eql so a list, vector, octets, or
+// hash-table can never match a key and can not be stored as one.
+func checkHashKey(s *slip.Scope, depth int, key slip.Object) {
+	if key != nil && !reflect.TypeOf(key).Comparable() {
+		slip.TypePanic(s, depth, "key", key, "symbol", "number", "character", "string", "instance")
+	}
 }
